@@ -59,7 +59,7 @@ _FIELD_PATTERN = re.compile(
     # work around this problem.
     r'{((?P<fname>[^}:]*)((?P<cname_sep>:(?P<cname>[^}\(]*))(\((?P<argstr>[^}]*)\))?)?)}'  # noqa E501
 )
-_IDENTIFIER_PATTERN = re.compile('[A-Za-z_][A-Za-z0-9_]*$')
+_IDENTIFIER_PATTERN = re.compile(r'[A-Za-z_][A-Za-z0-9_]*\Z')
 
 
 class CompiledRouter:
